@@ -11,7 +11,7 @@ from ..core import CaseStage, ExploreStage, fresh_dir, h8, seed_slice
 LEVEL = "exploration"
 RULE = ("(a) full product: member under test x {severed+body, severed without body, inline} x 16 subsets of the other "
         "severable members x 5 wrapper algorithms x 5 member algorithms x 5 supplied-digest forms (absent, empty, wrong "
-        "same length, wrong short, correct); (b) manifest and each severed member solved to byte lengths 23/24/255/"
+        "same length, wrong short, correct); (a2) the stale digest in each dict notation (raw, file, file_direct, envelope) at the wrapper, a dependency wrapper and each severed member; (b) manifest and each severed member solved to byte lengths 23/24/255/"
         "256/65535/65536 x 5 algorithms; (c) deviation-bounded exploration of G's envelope/manifest/text/auth scenarios "
         "incl. nested dependency envelopes (checked recursively at every level); (d) a rotating slice through "
         "cmd_create.main (JSON and YAML) and the CLI subprocess. Oracle: the verifier's CBOR reader locates keys 2, 3 "
@@ -190,6 +190,58 @@ def run_product(case, agg):
                         correct_m = r.items[1].value.hex() if (r is not None and r.kind == "array") else None
 
 
+# -- (a2) digest notations ---------------------------------------------------------------------------
+
+NOTATIONS = ["raw", "file", "file_direct", "envelope-file", "envelope-dict"]
+
+
+def notation_cases(tier):
+    out = []
+    for where in ["wrapper", "child-wrapper"] + SEV_NAMES:
+        for nota in NOTATIONS:
+            for alg in gen.ALG5:
+                out.append({"where": where, "notation": nota, "alg": alg})
+    return out
+
+
+def run_notation(case, agg):
+    """the supplied (stale) digest written in each of the description's digest notations: where the envelope carries
+    the digested bytes, the output digest is the hash of those bytes whatever the notation said"""
+    where, nota, alg = case["where"], case["notation"], case["alg"]
+    key = h8("c01n", case)
+    n = registry.HASH_LEN[registry.HASH_ALGS[alg]]
+    with fresh_dir("c01n") as root:
+        stale_file = os.path.join(root, "stale.bin")
+        open(stale_file, "wb").write(bytes.fromhex("c3" * n))
+        other = impl.tool_create(gen.minimal(man={"suit-manifest-sequence-number": 77}))
+        other_file = os.path.join(root, "other.suit")
+        open(other_file, "wb").write(other)
+        val = {"raw": {"raw": "c3" * n}, "file": {"file": stale_file}, "file_direct": {"file_direct": stale_file},
+               "envelope-file": {"envelope": other_file},
+               "envelope-dict": {"envelope": gen.minimal(man={"suit-manifest-sequence-number": 78})}}[nota]
+        must_not = ["c3" * n] if nota in ("raw", "file_direct") else []
+        if where in ("wrapper", "child-wrapper"):
+            desc = gen.minimal(alg=alg if where == "wrapper" else "cose-alg-sha-256")
+            tgt = desc
+            if where == "child-wrapper":
+                child = gen.child_env(seq=5)
+                child["SUIT_Envelope_Tagged"]["suit-authentication-wrapper"]["SuitDigest"]["suit-digest-algorithm-id"] = alg
+                desc["SUIT_Envelope_Tagged"]["suit-integrated-dependencies"] = {"#child": child}
+                tgt = child
+            tgt["SUIT_Envelope_Tagged"]["suit-authentication-wrapper"]["SuitDigest"]["suit-digest-bytes"] = val
+        else:
+            desc = build(where, "severed", 0, "cose-alg-sha-256", alg, val, None)
+        for via in ("lib", "main-json", "main-yaml"):
+            try:
+                data = impl.tool_create(copy.deepcopy(desc)) if via == "lib" else impl.tool_create_main(copy.deepcopy(desc), root, via[5:])
+            except Exception as e:
+                agg.viol(f"C01:notation/create-failed/{type(e).__name__}@{impl.site_of(e)}", f"{case} via {via}: {type(e).__name__}: {e}", artefacts={"desc": desc})
+                return
+            if not report(agg, h8(key, via), f"stale digest in {nota} notation at {where}, alg {alg}, via {via}", data, must_not, via, desc=desc,
+                          sample={"where": where, "notation": nota, "alg": alg} if alg == gen.ALG5[2] and via == "lib" else None):
+                return
+
+
 # -- (b) width boundaries ----------------------------------------------------------------------------
 
 def width_cases(tier):
@@ -305,6 +357,9 @@ def plan(tier):
     st = [
         CaseStage("severed-product", lambda: product_cases(tier), run_product, chunk=1, disjoint=True,
                   rule="member x form x other-members subset x wrapper alg x member alg x supplied digest"),
+        CaseStage("digest-notations", lambda: notation_cases(tier), run_notation, chunk=2,
+                  rule="stale digest written as raw / file / file_direct / envelope(file) / envelope(dict) at the wrapper, a "
+                       "dependency's wrapper and each severed member x 5 algorithms x library / main(JSON) / main(YAML)"),
         CaseStage("width-boundaries", lambda: width_cases(tier), run_width, chunk=1,
                   rule="manifest / severed member byte length at 23,24,255,256,65535,65536 x 5 algorithms"),
     ]
